@@ -21,11 +21,22 @@ def _tables(ctx) -> Dict[str, Set[str]]:
     m = ctx.prog.module("utils")
     out = {}
     for role, name in TABLES.items():
-        if name not in m.constants:
-            raise AnalysisError(f"opcode table {name} not found in utils.py")
-        v = ctx.prog.const_value(m, m.constants[name])
+        mm, node = _table_node(ctx, name)
+        v = ctx.prog.const_value(mm, node)
         out[role] = set(v)
     return out
+
+
+def _table_node(ctx, name: str):
+    """(module, value node) of an opcode table: defined in utils.py, or imported there from the module
+    that defines it"""
+    m = ctx.prog.module("utils")
+    if name in m.constants and name not in m.imports:
+        return m, m.constants[name]
+    kind, obj = ctx.prog.resolve_dotted(m, name)
+    if kind == "const":
+        return obj  # type: ignore[return-value]
+    raise AnalysisError(f"opcode table {name} not found in utils.py (nor imported there)")
 
 
 def _classify(name: str) -> Optional[str]:
@@ -41,7 +52,8 @@ def table1(ctx) -> List[Ob]:
     out: List[Ob] = []
     tabs = _tables(ctx)
     m = ctx.prog.module("utils")
-    where = f"{m.relpath}:{A.lineno(m.constants['_cond_jump'])}"
+    _tm, _tn = _table_node(ctx, "_cond_jump")
+    where = f"{_tm.relpath}:{A.lineno(_tn)}"
     exes = interpreters() if ctx.tier == "thorough" else interpreters()[:1]
     ctx.stats["TABLE-1.interpreters"] = exes
     for exe in exes:
@@ -184,7 +196,8 @@ def table3(ctx) -> List[Ob]:
     out: List[Ob] = []
     tabs = _tables(ctx)
     m = ctx.prog.module("utils")
-    where = f"{m.relpath}:{A.lineno(m.constants['_uncond_jump'])}"
+    _tm, _tn = _table_node(ctx, "_uncond_jump")
+    where = f"{_tm.relpath}:{A.lineno(_tn)}"
     exes = interpreters() if ctx.tier == "thorough" else interpreters()[:1]
     for exe in exes:
         data = oracle(exe)
@@ -204,12 +217,31 @@ def table3(ctx) -> List[Ob]:
     if bb is None:
         raise AnalysisError("FlowInfo.build_basicblocks not found")
     key = "terminator lookup"
-    txt = A.unparse(bb.node)
-    zl = [lp for lp in A.walk_no_nested(bb.node) if isinstance(lp, ast.For) and isinstance(lp.target, ast.Tuple) and len(lp.target.elts) == 2 and "zip(" in A.unparse(lp.iter)]
-    E = A.unparse(zl[0].target.elts[1]) if zl else "end"
-    nm = [A.unparse(s_.targets[0]) for s_ in A.walk_no_nested(bb.node) if isinstance(s_, ast.Assign) and isinstance(s_.value, ast.DictComp)]
-    NM = nm[0] if nm else "names"
-    if f"_prev_inst_offset({E})" in txt and ("not in self.jump_insts" in txt or " in self.jump_insts" in txt) and f"{NM}[{E}]" in txt:
+    from .common import expanded_function
+
+    xb = expanded_function(bb)
+    # the loop that builds the blocks walks (begin, end) pairs
+    zl = [lp for lp in A.walk_no_nested(xb) if isinstance(lp, ast.For) and isinstance(lp.target, ast.Tuple) and len(lp.target.elts) == 2
+          and any(isinstance(c_, ast.Call) and A.unparse(c_.func).endswith("PythonBytecodeBlock") for c_ in ast.walk(lp))]
+    found = False
+    if zl:
+        lp = zl[0]
+        E = A.unparse(lp.target.elts[1])
+        # the terminator offset: a local bound to _prev_inst_offset(E) (or the call itself in the test)
+        terms = {f"_prev_inst_offset({E})"}
+        for s_ in A.walk_no_nested(lp):
+            if isinstance(s_, ast.Assign) and len(s_.targets) == 1 and isinstance(s_.targets[0], ast.Name) and A.unparse(s_.value) == f"_prev_inst_offset({E})":
+                terms.add(s_.targets[0].id)
+        for if_ in A.walk_no_nested(lp):
+            if not (isinstance(if_, (ast.If, ast.IfExp)) and isinstance(if_.test, ast.Compare) and len(if_.test.ops) == 1 and isinstance(if_.test.ops[0], (ast.In, ast.NotIn))):
+                continue
+            if A.unparse(if_.test.left) not in terms or not A.unparse(if_.test.comparators[0]).endswith("jump_insts"):
+                continue
+            implicit = if_.body if isinstance(if_.test.ops[0], ast.NotIn) else if_.orelse
+            itxt = " ".join(A.unparse(x) for x in (implicit if isinstance(implicit, list) else [implicit]))
+            if f"[{E}]" in itxt:
+                found = True
+    if found:
         out.append(ok("TABLE-3", bb.qualname, key, ctx.where(bb), "term_offset = end-2; recorded jump else implicit fall-through to the next block"))
     else:
         out.append(unresolved("TABLE-3", bb.qualname, key, ctx.where(bb), "terminator lookup not recognised"))
